@@ -460,6 +460,17 @@ def _canonical_statements(tree: ast.AST):
                     while i < len(blk):
                         st = blk[i]
                         nxt = blk[i + 1] if i + 1 < len(blk) else None
+                        # i = 0 ; while i < N: ... ; i += 1   [; if i == N: S]     ->   for i in range(N): ...  [else: S]
+                        r = _counting_while(fn, blk, i)
+                        if r is not None:
+                            new_stmts, consumed = r
+                            out.extend(new_stmts)
+                            i += consumed
+                            continue
+                        # for k in range(len(X)): v = X[k] ; ...      ->   for k, v in enumerate(X): ...
+                        if isinstance(st, ast.For):
+                            _index_loop_to_enumerate(fn, st)
+                            _enumerate_to_index_loop(st)
                         # x = x op y
                         if isinstance(st, ast.Assign) and len(st.targets) == 1 and isinstance(st.value, ast.BinOp) and \
                                 isinstance(st.targets[0], (ast.Name, ast.Subscript, ast.Attribute)) and \
@@ -472,6 +483,12 @@ def _canonical_statements(tree: ast.AST):
                                 and isinstance(nxt.value, ast.Name) and nxt.value.id == st.targets[0].id and st.targets[0].id not in captured \
                                 and getattr(st, "ann", None) is None:
                             out.append(ast.copy_location(ast.Return(value=st.value), nxt))
+                            i += 2
+                            continue
+                        # x = [] / list() / set() ; nest of for / if / guard-continue ending in x.append(e) / x.add(e)   ->  comprehension
+                        comp = _collecting_nest(st, nxt)
+                        if comp is not None:
+                            out.append(comp)
                             i += 2
                             continue
                         # x = [] ; for t in it: x.append(e)
@@ -492,11 +509,19 @@ def _canonical_statements(tree: ast.AST):
                         if isinstance(st, ast.Assign) and len(st.targets) == 1 and isinstance(st.targets[0], ast.Tuple) and \
                                 isinstance(st.value, ast.Tuple) and len(st.targets[0].elts) == len(st.value.elts) and \
                                 all(isinstance(t, ast.Name) for t in st.targets[0].elts) and \
-                                all(isinstance(v, (ast.Name, ast.Constant)) for v in st.value.elts) and \
-                                not ({t.id for t in st.targets[0].elts} & {v.id for v in st.value.elts if isinstance(v, ast.Name)}) and \
+                                all(_plain_read(v) for v in st.value.elts) and \
+                                not ({t.id for t in st.targets[0].elts} & {x.id for v in st.value.elts for x in ast.walk(v) if isinstance(x, ast.Name)}) and \
                                 len({t.id for t in st.targets[0].elts}) == len(st.targets[0].elts):
                             for t, v in zip(st.targets[0].elts, st.value.elts):
                                 out.append(ast.copy_location(ast.Assign(targets=[t], value=v), st))
+                            i += 1
+                            continue
+                        # a = b = v   ->  a = v ; b = v      (v a plain name / constant that no target rebinds)
+                        if isinstance(st, ast.Assign) and len(st.targets) > 1 and isinstance(st.value, (ast.Name, ast.Constant)) and \
+                                not (isinstance(st.value, ast.Name) and any(isinstance(x, ast.Name) and x.id == st.value.id and isinstance(x.ctx, ast.Store)
+                                                                            for t in st.targets for x in ast.walk(t))):
+                            for t in st.targets:
+                                out.append(ast.copy_location(ast.Assign(targets=[t], value=_copy.deepcopy(st.value)), st))
                             i += 1
                             continue
                         # x = x  (left behind by inlining)
@@ -611,6 +636,299 @@ def _eliminate_aliases(tree: ast.AST):
                     n.id = b
 
 
+_PURE_CALLS = {"len", "sum", "min", "max", "abs", "float", "int", "bool", "sorted", "list", "tuple", "enumerate", "zip", "range", "reversed",
+               "np.sum", "np.abs", "np.mean", "np.sqrt", "np.log2", "np.ceil", "np.floor", "np.float32", "np.float64", "np.int32", "np.int64", "np.int16",
+               "np.maximum", "np.minimum", "np.cumsum", "np.unique", "np.argsort", "np.where", "np.arange", "np.max", "np.min", "np.std", "np.asarray",
+               "isinstance", "str", "round", "math.sqrt", "math.ceil", "math.floor"}
+_PURE_METHODS = {"values", "keys", "items", "index", "sum", "astype", "mean", "max", "min", "get", "count", "startswith", "endswith", "format", "join",
+                 "copy_nothing_"}
+
+
+def _pure_expr(e: ast.AST) -> bool:
+    """no side effect and no dependence on evaluation order relative to its neighbours: names, constants, field reads, subscripts, arithmetic,
+    comparisons, comprehensions, and calls to a fixed list of pure builtins / numpy reductions / read-only container methods"""
+    for x in ast.walk(e):
+        if isinstance(x, ast.Call):
+            fn = ast.unparse(x.func)
+            if fn in _PURE_CALLS:
+                continue
+            if isinstance(x.func, ast.Attribute) and x.func.attr in _PURE_METHODS:
+                continue
+            return False
+        if isinstance(x, (ast.Yield, ast.YieldFrom, ast.Await, ast.NamedExpr, ast.Lambda, ast.Starred)):
+            return False
+    return True
+
+
+def _inline_adjacent_temporaries(tree: ast.AST):
+    """`t = E ; S(t)` with t a plain local bound once and read once, in the very next statement (not a while-header), E pure: S(E).
+    "Introduce explaining variable" and its inverse are the same program for every rule."""
+    import copy as _copy
+    for fn in [n for n in ast.walk(tree) if isinstance(n, (ast.FunctionDef, ast.AsyncFunctionDef))]:
+        a_ = fn.args
+        params = {x.arg for x in a_.args + a_.kwonlyargs + a_.posonlyargs} | ({a_.vararg.arg} if a_.vararg else set()) | ({a_.kwarg.arg} if a_.kwarg else set())
+        for _round in range(6):
+            loads: Dict[str, int] = {}
+            stores: Dict[str, int] = {}
+            nested = set()
+            for n in ast.walk(fn):
+                if n is not fn and isinstance(n, (ast.FunctionDef, ast.AsyncFunctionDef, ast.Lambda, ast.ClassDef)):
+                    nested |= _names_in(n)
+                if isinstance(n, ast.Name):
+                    d = loads if isinstance(n.ctx, ast.Load) else stores
+                    d[n.id] = d.get(n.id, 0) + 1
+                elif isinstance(n, (ast.Global, ast.Nonlocal)):
+                    for nm in n.names:
+                        stores[nm] = 99
+            changed = False
+            for node in ast.walk(fn):
+                for fld in ("body", "orelse", "finalbody"):
+                    blk = getattr(node, fld, None)
+                    if not isinstance(blk, list) or len(blk) < 2 or not isinstance(blk[0], ast.stmt):
+                        continue
+                    k = 0
+                    while k + 1 < len(blk):
+                        st, nxt = blk[k], blk[k + 1]
+                        if isinstance(st, ast.Assign) and len(st.targets) == 1 and isinstance(st.targets[0], ast.Name) and getattr(st, "ann", None) is None:
+                            t = st.targets[0].id
+                            if t not in params and t not in nested and stores.get(t) == 1 and loads.get(t) == 1 and _pure_expr(st.value):
+                                # where the single read is: header / simple statement of nxt only
+                                if isinstance(nxt, (ast.Assign, ast.AugAssign, ast.Return, ast.Expr)):
+                                    parts = [nxt]
+                                elif isinstance(nxt, ast.If):
+                                    parts = [nxt.test]
+                                elif isinstance(nxt, ast.For):
+                                    parts = [nxt.iter]
+                                else:
+                                    parts = []
+                                hits = [x for p_ in parts for x in ast.walk(p_) if isinstance(x, ast.Name) and x.id == t and isinstance(x.ctx, ast.Load)]
+                                # a read inside a comprehension is evaluated lazily / repeatedly, except in the first iterable (evaluated once, at once)
+                                in_comp = any(isinstance(c, (ast.ListComp, ast.SetComp, ast.DictComp, ast.GeneratorExp)) and
+                                              any(h is y for h in hits for y in ast.walk(c)) and
+                                              not any(h is z for h in hits for z in ast.walk(c.generators[0].iter))
+                                              for p_ in parts for c in ast.walk(p_))
+                                # names E depends on must not be rebound by the target of nxt before the read (only AugAssign/Assign targets are written after the value)
+                                if len(hits) == 1 and not in_comp:
+                                    h = hits[0]
+
+                                    class R(ast.NodeTransformer):
+                                        def visit_Name(self, n):
+                                            return ast.copy_location(_copy.deepcopy(st.value), n) if n is h else n
+                                    if isinstance(nxt, ast.If):
+                                        nxt.test = R().visit(nxt.test)
+                                    elif isinstance(nxt, ast.For):
+                                        nxt.iter = R().visit(nxt.iter)
+                                    else:
+                                        R().visit(nxt)
+                                    del blk[k]
+                                    changed = True
+                                    loads[t] = 0
+                                    continue
+                        k += 1
+            if not changed:
+                break
+    ast.fix_missing_locations(tree)
+
+
+def _stored_names(stmts) -> set:
+    out = set()
+    for s in stmts:
+        for x in ast.walk(s):
+            if isinstance(x, ast.Name) and isinstance(x.ctx, (ast.Store, ast.Del)):
+                out.add(x.id)
+    return out
+
+
+def _loop_level(stmts, kinds) -> bool:
+    """does a statement of the given kinds occur in `stmts` at this loop's level (not inside a nested loop / function)"""
+    for s in stmts:
+        if isinstance(s, kinds):
+            return True
+        if isinstance(s, (ast.For, ast.While, ast.FunctionDef, ast.AsyncFunctionDef, ast.ClassDef)):
+            continue
+        for fld in ("body", "orelse", "finalbody"):
+            sub = getattr(s, fld, None)
+            if isinstance(sub, list) and sub and isinstance(sub[0], ast.stmt) and _loop_level(sub, kinds):
+                return True
+        for h in getattr(s, "handlers", []) or []:
+            if _loop_level(h.body, kinds):
+                return True
+    return False
+
+
+def _counting_while(fn, blk, k):
+    """`i = 0; while i < N: body; i += 1` (no continue, i and N not otherwise written in the body) is `for i in range(N): body`;
+    a following `if i == N: S` (i dead afterwards) is the loop's else clause.  Returns (new statements, statements consumed) or None."""
+    if k + 1 >= len(blk):
+        return None
+    init, W = blk[k], blk[k + 1]
+    if not (isinstance(init, ast.Assign) and len(init.targets) == 1 and isinstance(init.targets[0], ast.Name) and
+            isinstance(init.value, ast.Constant) and init.value.value == 0 and type(init.value.value) is int and isinstance(W, ast.While) and not W.orelse):
+        return None
+    iv = init.targets[0].id
+    t = W.test
+    if not (isinstance(t, ast.Compare) and len(t.ops) == 1):
+        return None
+    if isinstance(t.ops[0], ast.Lt) and isinstance(t.left, ast.Name) and t.left.id == iv:
+        bound = t.comparators[0]
+    elif isinstance(t.ops[0], ast.Gt) and isinstance(t.comparators[0], ast.Name) and t.comparators[0].id == iv:
+        bound = t.left
+    else:
+        return None
+    if not (isinstance(bound, ast.Name) or (isinstance(bound, ast.Call) and ast.unparse(bound.func) == "len" and len(bound.args) == 1 and isinstance(bound.args[0], ast.Name))):
+        return None
+    if not W.body:
+        return None
+    last = W.body[-1]
+    if not (isinstance(last, ast.AugAssign) and isinstance(last.op, ast.Add) and isinstance(last.target, ast.Name) and last.target.id == iv and
+            isinstance(last.value, ast.Constant) and last.value.value == 1):
+        return None
+    inner = W.body[:-1]
+    if not inner or iv in _stored_names(inner) or (_names_in(bound) & _stored_names(W.body)) or _loop_level(inner, (ast.Continue,)):
+        return None
+    # mutation of the bound's sequence length inside the loop would also differ: only plain names / len(name) with name not stored are accepted above
+    rest = blk[k + 2:]
+    consumed = 2
+    orelse = []
+    if rest and isinstance(rest[0], ast.If) and not rest[0].orelse and isinstance(rest[0].test, ast.Compare) and len(rest[0].test.ops) == 1 and \
+            isinstance(rest[0].test.ops[0], ast.Eq) and {ast.unparse(rest[0].test.left), ast.unparse(rest[0].test.comparators[0])} == {iv, ast.unparse(bound)}:
+        orelse = rest[0].body
+        consumed = 3
+        rest = rest[1:]
+    # i must be dead after the loop (its final value differs between the two spellings)
+    later_reads = any(isinstance(x, ast.Name) and x.id == iv and isinstance(x.ctx, ast.Load) for s in rest for x in ast.walk(s))
+    # ... including on the next iteration of an enclosing loop / elsewhere in the function: require every other mention of i to be inside this loop
+    inside = {id(x) for s in [init, W] + (blk[k + 2:k + 3] if consumed == 3 else []) for x in ast.walk(s)}
+    elsewhere = any(isinstance(x, ast.Name) and x.id == iv and id(x) not in inside for x in ast.walk(fn))
+    if later_reads or elsewhere:
+        return None
+    rng = ast.Call(func=ast.Name(id="range", ctx=ast.Load()), args=[bound], keywords=[])
+    loop = ast.copy_location(ast.For(target=ast.Name(id=iv, ctx=ast.Store()), iter=rng, body=inner, orelse=orelse, type_comment=None), W)
+    ast.fix_missing_locations(loop)
+    return [loop], consumed
+
+
+def _index_loop_to_enumerate(fn, L: ast.For):
+    """`for k in range(len(X)): v = X[k]; ...`  ->  `for k, v in enumerate(X): ...`   (X, k, v not rebound in the body; also with a local n = len(X))"""
+    if not (isinstance(L.target, ast.Name) and isinstance(L.iter, ast.Call) and ast.unparse(L.iter.func) == "range" and len(L.iter.args) == 1 and
+            not L.iter.keywords and L.body):
+        return
+    kv = L.target.id
+    b = L.iter.args[0]
+    first = L.body[0]
+    if not (isinstance(first, ast.Assign) and len(first.targets) == 1 and isinstance(first.targets[0], ast.Name) and isinstance(first.value, ast.Subscript) and
+            isinstance(first.value.value, ast.Name) and isinstance(first.value.slice, ast.Name) and first.value.slice.id == kv and getattr(first, "ann", None) is None):
+        return
+    X, v = first.value.value.id, first.targets[0].id
+    if _index_bounds_nested_loop(L, kv):
+        return          # triangular nests keep the index form (canonical choice, see _enumerate_to_index_loop)
+    if isinstance(b, ast.Name):
+        defs = [s for s in ast.walk(fn) if isinstance(s, ast.Assign) and len(s.targets) == 1 and isinstance(s.targets[0], ast.Name) and s.targets[0].id == b.id]
+        n_stores = sum(1 for x in ast.walk(fn) if isinstance(x, ast.Name) and x.id == b.id and isinstance(x.ctx, ast.Store))
+        if len(defs) != 1 or n_stores != 1:
+            return
+        b = defs[0].value
+    if not (isinstance(b, ast.Call) and ast.unparse(b.func) == "len" and len(b.args) == 1 and isinstance(b.args[0], ast.Name) and b.args[0].id == X):
+        return
+    stored = _stored_names(L.body[1:])
+    if {kv, v, X} & stored or v == kv or v == X:
+        return
+    # X must not change length in the body: no method call on X, no store through X
+    for x in ast.walk(L):
+        if isinstance(x, ast.Call) and isinstance(x.func, ast.Attribute) and isinstance(x.func.value, ast.Name) and x.func.value.id == X:
+            return
+    L.target = ast.copy_location(ast.Tuple(elts=[ast.Name(id=kv, ctx=ast.Store()), ast.Name(id=v, ctx=ast.Store())], ctx=ast.Store()), L.target)
+    L.iter = ast.copy_location(ast.Call(func=ast.Name(id="enumerate", ctx=ast.Load()), args=[ast.Name(id=X, ctx=ast.Load())], keywords=[]), L.iter)
+    L.body = L.body[1:] or [ast.copy_location(ast.Pass(), first)]
+    ast.fix_missing_locations(L)
+
+
+def _index_bounds_nested_loop(L: ast.For, kv: str) -> bool:
+    return any(isinstance(x, ast.For) and x is not L and isinstance(x.iter, ast.Call) and ast.unparse(x.iter.func) == "range" and
+               kv in _names_in(x.iter) for x in ast.walk(L))
+
+
+def _enumerate_to_index_loop(L: ast.For):
+    """converse canonical choice: `for k, v in enumerate(X)` whose index bounds a nested counted loop (triangular nest) becomes
+    `for k in range(len(X)): v = X[k]`"""
+    if not (isinstance(L.iter, ast.Call) and ast.unparse(L.iter.func) == "enumerate" and len(L.iter.args) == 1 and not L.iter.keywords and
+            isinstance(L.iter.args[0], ast.Name) and isinstance(L.target, ast.Tuple) and len(L.target.elts) == 2 and
+            all(isinstance(x, ast.Name) for x in L.target.elts)):
+        return
+    kv, v, X = L.target.elts[0].id, L.target.elts[1].id, L.iter.args[0].id
+    if not _index_bounds_nested_loop(L, kv) or {kv, v, X} & _stored_names(L.body):
+        return
+    first = ast.copy_location(ast.Assign(targets=[ast.Name(id=v, ctx=ast.Store())],
+                                         value=ast.Subscript(value=ast.Name(id=X, ctx=ast.Load()), slice=ast.Name(id=kv, ctx=ast.Load()), ctx=ast.Load())), L)
+    L.target = ast.copy_location(ast.Name(id=kv, ctx=ast.Store()), L.target)
+    L.iter = ast.copy_location(ast.Call(func=ast.Name(id="range", ctx=ast.Load()),
+                                        args=[ast.Call(func=ast.Name(id="len", ctx=ast.Load()), args=[ast.Name(id=X, ctx=ast.Load())], keywords=[])], keywords=[]), L.iter)
+    L.body = [first] + L.body
+    ast.fix_missing_locations(L)
+
+
+def _collecting_nest(st, nxt):
+    """x = [] | list() | set()  followed by  for..: [for..:] [if c: continue]* [if c:] x.append(e) | x.add(e)   ->   x = [e for .. for .. if ..] / {..}"""
+    if not (isinstance(st, ast.Assign) and len(st.targets) == 1 and isinstance(st.targets[0], ast.Name) and isinstance(nxt, ast.For)):
+        return None
+    v = st.value
+    kind = None
+    if (isinstance(v, ast.List) and not v.elts) or (isinstance(v, ast.Call) and ast.unparse(v) == "list()"):
+        kind = "append"
+    elif isinstance(v, ast.Call) and ast.unparse(v) == "set()":
+        kind = "add"
+    if kind is None:
+        return None
+    x = st.targets[0].id
+    gens: List[ast.comprehension] = []
+    elt = None
+    cur: ast.stmt = nxt
+    while True:
+        if not (isinstance(cur, ast.For) and not cur.orelse):
+            return None
+        g = ast.comprehension(target=cur.target, iter=cur.iter, ifs=[], is_async=0)
+        gens.append(g)
+        body = list(cur.body)
+        # leading guard clauses
+        while body and isinstance(body[0], ast.If) and not body[0].orelse and len(body[0].body) == 1 and isinstance(body[0].body[0], ast.Continue) and len(body) > 1:
+            g.ifs.append(_negate(body[0].test))
+            body = body[1:]
+        if len(body) != 1:
+            return None
+        only = body[0]
+        while isinstance(only, ast.If) and not only.orelse and len(only.body) == 1:
+            g.ifs.append(only.test)
+            only = only.body[0]
+        if isinstance(only, ast.For):
+            cur = only
+            continue
+        if isinstance(only, ast.Expr) and isinstance(only.value, ast.Call) and isinstance(only.value.func, ast.Attribute) and only.value.func.attr == kind and \
+                isinstance(only.value.func.value, ast.Name) and only.value.func.value.id == x and len(only.value.args) == 1 and not only.value.keywords:
+            elt = only.value.args[0]
+            break
+        return None
+    mentioned = set()
+    for g in gens:
+        mentioned |= _names_in(g.iter) | _names_in(g.target) | {n for c in g.ifs for n in _names_in(c)}
+    if x in mentioned or x in _names_in(elt):
+        return None
+    if len(gens) == 1 and not gens[0].ifs and kind == "append":
+        return None          # the plain form is handled by the simpler rule below (kept for its own tests)
+    comp = (ast.ListComp if kind == "append" else ast.SetComp)(elt=elt, generators=gens)
+    a = ast.copy_location(ast.Assign(targets=[st.targets[0]], value=ast.copy_location(comp, nxt)), st)
+    if getattr(st, "ann", None) is not None:
+        a.ann = st.ann
+    ast.fix_missing_locations(a)
+    return a
+
+
+def _plain_read(e: ast.AST) -> bool:
+    """name, constant, or attribute chain on a name (a field read)"""
+    while isinstance(e, ast.Attribute):
+        e = e.value
+    return isinstance(e, (ast.Name, ast.Constant))
+
+
 def _negate(t: ast.AST) -> ast.AST:
     if isinstance(t, ast.UnaryOp) and isinstance(t.op, ast.Not):
         return t.operand
@@ -638,11 +956,7 @@ def normalise_tree(tree: ast.AST) -> int:
     Returns the number of statements dropped."""
     removed = 0
     _canonical_receivers(tree)
-    _fold_constants(tree)
-    _simplify_not(tree)
-    _canonical_comparisons(tree)
-    _canonical_statements(tree)
-    _eliminate_aliases(tree)
+    # annotated assignments first, so that every statement-level canonical form sees plain assignments
     for fn in [n for n in ast.walk(tree) if isinstance(n, (ast.FunctionDef, ast.AsyncFunctionDef))]:
         for node in ast.walk(fn):
             for fld in ("body", "orelse", "finalbody"):
@@ -656,7 +970,26 @@ def normalise_tree(tree: ast.AST) -> int:
                         a.end_lineno, a.end_col_offset = getattr(st, "end_lineno", None), getattr(st, "end_col_offset", None)
                         a.ann = st.annotation
                         new.append(a)
-                    elif _is_inert(st) and not isinstance(node, ast.ClassDef):
+                    else:
+                        new.append(st)
+                setattr(node, fld, new)
+    _fold_constants(tree)
+    _simplify_not(tree)
+    _canonical_comparisons(tree)
+    _canonical_statements(tree)
+    _eliminate_aliases(tree)
+    if os.environ.get("PGSTAT_NO_TEMP_INLINE") != "1":
+        _inline_adjacent_temporaries(tree)
+        _canonical_statements(tree)
+    for fn in [n for n in ast.walk(tree) if isinstance(n, (ast.FunctionDef, ast.AsyncFunctionDef))]:
+        for node in ast.walk(fn):
+            for fld in ("body", "orelse", "finalbody"):
+                blk = getattr(node, fld, None)
+                if not isinstance(blk, list) or not blk or not isinstance(blk[0], ast.stmt):
+                    continue
+                new = []
+                for st in blk:
+                    if _is_inert(st) and not isinstance(node, ast.ClassDef):
                         removed += 1
                     else:
                         new.append(st)
